@@ -92,7 +92,8 @@ def base():
                              'buildScript: |\n    echo via $1\npackageScript: |\n    echo via-pkg\n')
     # a tool-less intermediate (mid2) above a tool user (leaf2), reached under two different providers of tool t
     f['recipes/leaf2.yaml'] = ('buildTools: [t]\nbuildVars: [LV]\nbuildScript: |\n    echo leaf2 $LV\npackageScript: |\n    echo leaf2-pkg\n')
-    f['recipes/mid2.yaml'] = ('depends: [leaf2]\nbuildScript: |\n    echo mid2 $1\npackageScript: |\n    echo mid2-pkg\n')
+    f['recipes/leaf3.yaml'] = ('packageTools: [t]\nbuildScript: |\n    echo leaf3\npackageScript: |\n    echo leaf3-pkg\n')
+    f['recipes/mid2.yaml'] = ('depends: [leaf2, leaf3]\nbuildScript: |\n    echo mid2 $1\npackageScript: |\n    echo mid2-pkg\n')
     f['recipes/wrap.yaml'] = ('depends:\n    - name: tool-t2\n      use: [tools]\n      forward: True\n    - mid2\n'
                               'buildScript: |\n    echo wrap $1\npackageScript: |\n    echo wrap-pkg\n')
     f['recipes/tool-t2.yaml'] = ('buildScript: |\n    echo tool2-build\n'
